@@ -33,7 +33,7 @@ func init() { register("C13", checkC13) }
 const c13Dev = "router"
 
 var c13Events = []string{
-	"newpolicy-same", "newpolicy-v4", "newpolicy-v6", "newpolicy-raw",
+	"newpolicy-same", "newpolicy-v4", "newpolicy-v6", "newpolicy-raw", "newpolicy-shrink",
 	"approve-ok", "approve-failed", "compare",
 	"drift", "repair",
 	"bzip2-old", "remove-old",
@@ -149,7 +149,7 @@ func c13Initial() *c13State { return c13InitialLayout(c13Layouts[0]) }
 
 func c13InitialLayout(have [3]bool) *c13State {
 	s := &c13State{FS: make(map[string]string)}
-	code := [3]string{"v4-0\n", "v6-0\n", "raw-0\n"}
+	code := [3]string{"v4-0\nv4-0 second line\n", "v6-0\n", "raw-0\nraw-0 second line\n"}
 	for i := range code {
 		if !have[i] {
 			code[i] = ""
@@ -274,6 +274,30 @@ func (w *c13Worker) apply(s *c13State, event string) *c13State {
 				return nil
 			}
 			p.Code[i] = uniq(strings.TrimPrefix(event, "newpolicy-"))
+		}
+		n.Pols = append(n.Pols, p)
+		n.writePolicy(n.cur())
+		n.FS["policies/current"] = "@" + curName()
+	case "newpolicy-shrink":
+		// The new code is a proper prefix of the old one: the last line
+		// of the last file is cut off, or that file is dropped.
+		p := c13Policy{N: n.cur().N + 1, Code: n.cur().Code}
+		last, files := -1, 0
+		for i, c := range p.Code {
+			if c != "" {
+				last = i
+				files++
+			}
+		}
+		if last < 0 {
+			return nil
+		}
+		if lines := strings.SplitAfter(strings.TrimSuffix(p.Code[last], "\n"), "\n"); len(lines) > 1 {
+			p.Code[last] = strings.Join(lines[:len(lines)-1], "")
+		} else if files > 1 {
+			p.Code[last] = ""
+		} else {
+			return nil
 		}
 		n.Pols = append(n.Pols, p)
 		n.writePolicy(n.cur())
